@@ -145,6 +145,9 @@ func (e *Engine) Solve(o *Obligation, solvers []string, timeout time.Duration, d
 				if i := strings.Index(o.ctx.fnKey, "."); i > 0 {
 					home = o.ctx.fnKey[:i]
 				}
+				if len(o.ctx.reveal) > 0 {
+					home += "|" + strings.Join(o.ctx.reveal, "|")
+				}
 				q, err := e.BuildQuery(facts, o.Goal, kind, o.LenBound, o.Fuel, home)
 				if err != nil {
 					return nil, err
